@@ -179,6 +179,58 @@ func runC18(c *Ctx) {
 					r.Fail("poll/value-only-when-due", key+" value return", f.PosOf(rt), "the polled value can be returned without its timer having fired (and without the ignore-timeouts shutdown flag): delivery before the scheduled time", w...)
 				}
 			}
+			// a cancelled element is never delivered: when the arm that licenses the delivery (timer fired,
+			// shutdown ignoring the timeouts) and the cancel channel are ready together, select picks one at
+			// random - a poller that has popped the element but not parked yet sees both. Every return of the
+			// value is therefore reached only through the `default` edge of a non-blocking look at the
+			// element's cancel channel made AFTER that arm was taken.
+			{
+				var notCancelled []Edge
+				ast.Inspect(awaitFd.Body, func(n ast.Node) bool {
+					sel, ok := n.(*ast.SelectStmt)
+					if !ok {
+						return true
+					}
+					var def *ast.CommClause
+					recvCancel := false
+					for _, st := range sel.Body.List {
+						cc := st.(*ast.CommClause)
+						if cc.Comm == nil {
+							def = cc
+						} else if commRecv(".cancel")(cc.Comm) {
+							recvCancel = true
+						}
+					}
+					if def == nil || !recvCancel || len(sel.Body.List) != 2 {
+						return true
+					}
+					// go/cfg emits the default body into the "after case" block of the last communication clause:
+					// the not-cancelled edge is the second successor of the block that branches into the cancel
+					// clause's body
+					var cancelClause *ast.CommClause
+					for _, st := range sel.Body.List {
+						if cc := st.(*ast.CommClause); cc.Comm != nil {
+							cancelClause = cc
+						}
+					}
+					for _, b := range f.G.Blocks {
+						if !b.Live || len(b.Succs) != 2 {
+							continue
+						}
+						if b.Succs[0].Stmt == ast.Stmt(cancelClause) && b.Succs[0].Kind == cfg.KindSelectCaseBody && b.Succs[1].Kind == cfg.KindSelectAfterCase {
+							notCancelled = append(notCancelled, Edge{b, 1})
+						}
+					}
+					return true
+				})
+				for _, rt := range rets {
+					if w, only := f.OnlyThroughEdges(rt, notCancelled); only {
+						r.Pass("poll/cancel-checked-before-delivery", key+" value return", f.PosOf(rt), "reached only through the default edge of a non-blocking look at the cancel channel")
+					} else {
+						r.Fail("poll/cancel-checked-before-delivery", key+" value return", f.PosOf(rt), "the polled value is returned without a fresh look at its cancel channel: if the element was cancelled while the poller was between the pop and its select, both arms are ready, select picks at random, and an element whose Cancel had already returned is delivered", w...)
+					}
+				}
+			}
 			isPop := heapCall("Pop")
 			// the timer whose arm licenses the delivery was armed for THIS candidate: after the pop every
 			// path to a timer arm creates a timer (time.NewTimer), or re-arms one (Reset) that was stopped
